@@ -19,6 +19,8 @@ func main() {
 		}
 	}()
 	switch os.Args[1] {
+	case "text":
+		cmdText(os.Args[2:])
 	case "rules":
 		cmdRules(os.Args[2:])
 	default:
